@@ -521,6 +521,45 @@ theorem validateDef_some (O : Oracle) (lines : List (Line × List Param)) (e : E
             obtain ⟨l', hl', r⟩ := hw
             exact ⟨l', by simp only [List.map_cons]; exact List.mem_cons_of_mem _ hl', r⟩
 
+/-! ### membership in the result, node by node -/
+theorem mem_specMembers_iff (O : Oracle) (lines : List (Line × List Param)) (pool : List Node)
+    (i : Nat) (v : Int) :
+    (i, v) ∈ specMembers O lines pool ↔
+      ∃ n, pool[i]? = some n ∧
+        ((lines.find? fun la => lineHolds O n la.1).map fun la => annoValue O la.2) = some v := by
+  rw [specMembers_eq, List.mem_filterMap]
+  constructor
+  · rintro ⟨⟨n, i'⟩, hni, hs⟩
+    unfold specOne at hs
+    cases hf : lines.find? (fun la => lineHolds O n la.1) with
+    | none => rw [hf] at hs; cases hs
+    | some la =>
+      rw [hf] at hs
+      simp only [Option.map_some, Option.some.injEq, Prod.mk.injEq] at hs
+      obtain ⟨rfl, rfl⟩ := hs
+      exact ⟨n, List.mem_zipIdx_iff_getElem?.mp hni, by rw [hf]; rfl⟩
+  · rintro ⟨n, hn, hm⟩
+    refine ⟨(n, i), List.mem_zipIdx_iff_getElem?.mpr hn, ?_⟩
+    unfold specOne
+    cases hf : lines.find? (fun la => lineHolds O n la.1) with
+    | none => rw [hf] at hm; cases hm
+    | some la =>
+      rw [hf] at hm
+      simp only [Option.map_some, Option.some.injEq] at hm
+      subst hm
+      rfl
+
+theorem mem_allMembers_iff (pool : List Node) (i : Nat) (v : Int) :
+    (i, v) ∈ pool.zipIdx.map (fun ni => (ni.2, (0 : Int))) ↔ (∃ n, pool[i]? = some n) ∧ v = 0 := by
+  rw [List.mem_map]
+  constructor
+  · rintro ⟨⟨n, i'⟩, hni, he⟩
+    simp only [Prod.mk.injEq] at he
+    obtain ⟨rfl, rfl⟩ := he
+    exact ⟨⟨n, List.mem_zipIdx_iff_getElem?.mp hni⟩, rfl⟩
+  · rintro ⟨⟨n, hn⟩, rfl⟩
+    exact ⟨(n, i), List.mem_zipIdx_iff_getElem?.mpr hn, rfl⟩
+
 deriving instance DecidableEq for Except
 
 /-! ### a concrete world for the non-vacuity examples -/
